@@ -407,4 +407,26 @@ example :
     let r := RRun.run true 2 [.apply, .initial (.ext 0) 0, .newcid 1 0 (.ext 1), .apply, .newcid 2 2 (.ext 2)]
     r.closed = false ∧ 1 ∈ (r.s.cell 1).seqs ∧ 1 < r.s.roff ∧ r.s.frames = [0] := by decide
 
+/-- the clause in one statement: a number that was assigned to a path and is now below retire-prior-to has EXACTLY ONE
+RETIRE_CONNECTION_ID frame once the path's borrow is released — unless the path still holds it as its only id, is
+queued for reassignment, and no replacement id has been received -/
+theorem abandoned_id_retired_once_after_release (fixed : Bool) (limit : Nat) (ops : List ROp) (q c : Nat)
+    (ha : Assigned fixed limit ops q c) (hcl : (RRun.run fixed limit ops).closed = false)
+    (hu : ((RRun.run fixed limit ops).s.cell c).inUse = false) (hlt : q < (RRun.run fixed limit ops).s.roff) :
+    (RRun.run fixed limit ops).s.frames.count q = 1 ∨
+    ((∃ x, ((RRun.run fixed limit ops).s.cell c).alloc = [(q, x)]) ∧ c ∈ (RRun.run fixed limit ops).s.pending ∧
+      (RRun.run fixed limit ops).s.cidAt (RRun.run fixed limit ops).s.cursor = none) := by
+  rcases (retire_prior_to_switches_and_retires_once fixed limit ops q c ha).2.2 hu with h | ⟨x, hx⟩
+  · exact Or.inl h
+  · right
+    have hq : q ∈ ((RRun.run fixed limit ops).s.cell c).seqs := by simp [Cell.seqs, hx]
+    rcases abandoned_id_held_only_while_waiting fixed limit ops q c hcl hq hlt with h1 | h1
+    · rw [hu] at h1; cases h1
+    · exact ⟨⟨x, hx⟩, h1⟩
+
+/-- non-vacuity: the c14-2 history — numbers 0 and 1 were assigned to cell 0, are below retire-prior-to 2 after the release -/
+example :
+    let r := RRun.run true 2 [.apply, .initial (.ext 0) 0, .borrow 0, .newcid 1 1 (.ext 1), .newcid 2 2 (.ext 2), .release 0]
+    r.closed = false ∧ (r.s.cell 0).inUse = false ∧ 1 < r.s.roff ∧ r.s.frames.count 1 = 1 ∧ r.s.frames.count 0 = 1 := by decide
+
 end GmQuic.Cid
